@@ -96,7 +96,7 @@ func init() {
 		ID: "C10", Engine: "lib", Level: "exploration",
 		Rule: "case = (document of /repo's tests/corpora/benchmarks, optionally embedded in an HTML host; 1-3 stream faults from {truncate at k, drop / duplicate (up to 64x) / swap a chunk, flip or zero a byte, reader error after k bytes, writer failing from call k}, positions biased to markup characters, token interiors and the last bytes; entry point in {Minify, Bytes, String, Reader, Writer, direct package Minify}; default or extreme options: every Keep* flag, precisions -1, 0, 1, 20, +-2^30, MaxInt, MinInt). Oracles: no panic (recover in the task; a panic in a library goroutine kills the shard and is attributed), the call returns (scheduler deadlock/step budget; wall-clock watchdog confirmed by a solitary replay), Write calls and bytes <= 64*len+8192, Bytes/String return the caller's data unchanged when they report an error. distinct = distinct (document, delivered bytes, entry, options); every case is non-trivial (at least one fault). One case in 16: a seeded Peek(k)/Shift history on the exported html/svg/xml TokenBuffer, every returned token compared with the token list of a second lexer. One case in 16: a seeded JavaScript program from a small grammar (expressions, conditions dense in !, groups, && / || and comparisons, statements, declarations over few names, edge-case numeric literals, spreads of literals), alone, in <script> or in on*=, through Minify / Bytes / String. One case in 48: the string helpers of package minify/v2/minify (minify.CSS/HTML/SVG/JS/JSON/XML) on a damaged or rejected document behind a byte order mark, blanks or a NUL - on error the very same string must come back. One case in 32 (thorough: plus an enumeration of every unit of <= 4 bytes of every document of <= 64 bytes): a scaling probe on simulated time - a unit repeated r, 4r, 16r times, plain or with numbered identifiers; violation when the ticks grow by more than 10 for both x4 steps and the largest run exceeds 3e6 ticks.",
 		Assumptions: []string{
-			"only the hostile inputs and error paths that a misbehaving transport or collaborator produces from a corpus document are claimed, not 'all byte strings' (that is fuzzing, another family): deep-nesting bombs, adversarial numbers and arbitrary non-UTF-8 are reached only as far as chunk duplication and byte flips produce them",
+			"only the hostile inputs and error paths that a misbehaving transport or collaborator produces from a corpus document are claimed - plus, labelled as workload generation and counted separately (entry_js_grammar), seeded JavaScript programs from a small grammar - not 'all byte strings' (that is fuzzing, another family): deep-nesting bombs, adversarial numbers and arbitrary non-UTF-8 are reached only as far as chunk duplication and byte flips produce them",
 			"memory growth is not observable (Go has no allocator seam); time is simulated: a work counter compiled (by the build overlay) into every function entry and loop body of the seven packages of /repo and of a private copy of the parse module, copy/append charged per 8 elements; work hidden in other library calls is not counted; endless loops without a yield point are caught by a generous wall-clock watchdog that must reproduce in a solitary replay before it is reported",
 			"when the call succeeds under a corrupting fault nothing is asserted about the output (the input simply was another document)",
 		},
